@@ -1249,6 +1249,17 @@ func (m *Manager) Unlock(ns walletdb.ReadBucket, passphrase []byte) error {
 				return err
 			}
 
+			// Addresses of watch-only accounts (imported extended
+			// public keys) are queued as well when their account
+			// is loaded, but there is no private key to derive for
+			// them.
+			if !addressKey.IsPrivate() {
+				addressKey.Zero()
+				manager.deriveOnUnlock[0] = nil
+				manager.deriveOnUnlock = manager.deriveOnUnlock[1:]
+				continue
+			}
+
 			// It's ok to ignore the error here since it can only
 			// fail if the extended key is not private, however it
 			// was just derived as a private key.
